@@ -172,7 +172,7 @@ def detect_real_matrix_subspace_rank_one(matrix_subspace):
     tmp0 = basis.reshape(basis.shape[0], dimA*dimB)
     projector = tmp0.T @ tmp0
     upper_bound = get_real_bipartite_numerical_range(projector.reshape(dimA,dimB,dimA,dimB), kind='max')
-    if upper_bound < 1:
+    if upper_bound < 1-1e-10: #the bound of a subspace containing a rank-one element is 1 up to rounding
         tag_rank_one = False
     else:
         tag_rank_one = True #could be wrong
